@@ -8,7 +8,8 @@ import warnings
 TARGETS = ("cpp", "numpy", "python", "stablehlo", "xla_client")
 
 
-def all_units(targets=TARGETS):
+def all_units(targets=TARGETS, user=False):
+    """user=True appends the user-style definitions of harness/userdefs.py (function name "user:<name>")"""
     import functional_algorithms as fa
 
     out = []
@@ -17,6 +18,14 @@ def all_units(targets=TARGETS):
         for fn in sorted(target.trace_arguments):
             for i, _ in enumerate(target.trace_arguments[fn]):
                 out.append((tn, fn, i))
+    if user:
+        from harness import userdefs
+
+        for tn in targets:
+            for name in sorted(userdefs.DEFS):
+                _, nargs, kind = userdefs.DEFS[name]
+                for i, _ in enumerate(userdefs.signatures(tn, kind, nargs)):
+                    out.append((tn, "user:" + name, i))
     return out
 
 
@@ -34,8 +43,14 @@ def build_graph(unit):
 
     tn, fn, i = unit
     target = getattr(fa.targets, tn)
-    func = getattr(fa.algorithms, fn)
-    atypes = target.trace_arguments[fn][i]
+    if fn.startswith("user:"):
+        from harness import userdefs
+
+        func, nargs, kind = userdefs.DEFS[fn[5:]]
+        atypes = userdefs.signatures(tn, kind, nargs)[i]
+    else:
+        func = getattr(fa.algorithms, fn)
+        atypes = target.trace_arguments[fn][i]
     ctx = make_context(tn)
     with warnings.catch_warnings():
         warnings.simplefilter("ignore")
@@ -44,7 +59,7 @@ def build_graph(unit):
                 graph = ctx.trace(func, *atypes).rewrite(target, fa.rewrite)
             except NotImplementedError:
                 return None
-    graph.props.update(name="%s_%d" % (fn, i))
+    graph.props.update(name="%s_%d" % (fn.replace("user:", "user_"), i))
     return graph
 
 
@@ -70,7 +85,7 @@ if __name__ == "__main__":
     import json
     import sys
 
-    us = all_units()
+    us = all_units(user=True)
     if len(sys.argv) > 1 and sys.argv[1] == "reversed":
         us = us[::-1]
     out = {}
